@@ -1,1 +1,176 @@
-Require Import BV.model.AshHost.
+(* C01 -- reliable, ordered, exactly-once delivery between the host's ASH endpoint and a
+   specification-conforming NCP over a line that drops, detectably corrupts, duplicates and stalls.
+   Statements only; proofs in proofs/AshLink_proofs.v; the system is model/AshLink.v.
+
+   The system (link_step K : lstate -> label -> lstate, link_run K ls from l_init):
+     host     the hstate of model/AshHost.v, evolving through host_step only (window TX_K = 1,
+              ACK_TIMEOUTS = 5 attempts, then the failed state);
+     NCP      n_rx / n_base / n_next / n_sub; it may submit a payload (LNSubmit), (re)transmit
+              DATA frame i of its window n_base <= i <= n_next, i < n_base + K with frmNum i mod 8,
+              ackNum n_rx mod 8 and either value of reTx (LNData i re), send ACK / NAK carrying
+              n_rx mod 8 at any time (LNAck, LNNak); it accepts a DATA frame iff frmNum = n_rx mod 8
+              and slides n_base by the decoded ackNum of every frame it reads; it never resets;
+     line     two FIFO queues of frames; the head of either can be delivered, dropped, duplicated
+              (LHDup / LNDup put a second copy behind the head: "deliver and keep" is Dup then
+              Deliver, and any number of copies is possible) or detectably corrupted (the reader
+              sees garbage: the host answers CANCEL + NAK, the NCP answers NAK);
+     stall    LTick, the host's acknowledgement timeout;
+     callers  LSubmit id p, LCancel id, and LWaitTo t for the passage of time.
+   Everything the host writes joins the host->NCP queue in order.  Labels that are not enabled are
+   no-ops, so the theorems quantify over every list of labels of any length: every fault
+   assignment, every interleaving of the two ends, every cancellation point, runs that wrap the
+   3-bit numbers any number of times, and runs in which the host gives up (retry budget exhausted:
+   it stops transmitting and later sends fail at once).
+
+   One epoch: nobody resets, and a conforming NCP emits no RST / RSTACK / ERROR inside an epoch.
+   The host reads one frame per event (Frames [f]).
+
+   Vocabulary (model/AshLink.v):
+     hups s            payloads the host handed up (HUp outputs), in order
+     nups s            payloads the NCP handed up, in order
+     first_tx tr       (id, payload) of the DATA frames in tr with reTx = 0, in order
+     ncp_deliveries s  firstn (length (nups s)) (first_tx (htrace s)): the sends the NCP's upper
+                       layer has received (justified by c01_host_to_ncp_prefix)
+     lsubmits ls       (id, payload) of the LSubmit labels, in order
+     prefix_of a b     exists rest, b = a ++ rest
+     subseq a b        a is an order-preserving sub-sequence of b (proofs file)
+     drop_cancels ls   ls without its LCancel labels
+     strip C tr        tr without the HDone events of the callers in C                          *)
+From Coq Require Import PrimFloat ZArith NArith List Bool Arith FinFun.
+Import ListNotations.
+Require Import BV.gen.GenAsh BV.model.AshCodec BV.model.AshRx BV.model.AshHost BV.model.AshLink.
+Require Import BV.proofs.AshLink_proofs.
+Local Open Scope nat_scope.
+
+(* ---- NCP -> host --------------------------------------------------------------------------------
+   The payloads the host hands up are a prefix of the payloads the NCP submitted, in submission
+   order: each exactly once, in order, none invented.  Any window up to 7. *)
+Theorem c01_ncp_to_host_prefix : forall K ls, K <= 7 ->
+  prefix_of (hups (link_run K ls)) (n_sub (ns (link_run K ls))).
+Proof. exact ncp_to_host_prefix. Qed.
+
+(* whatever the NCP considers acknowledged has been handed up *)
+Theorem c01_ncp_acked_delivered : forall K ls, K <= 7 ->
+  n_base (ns (link_run K ls)) <= length (hups (link_run K ls)).
+Proof. exact ncp_acked_delivered. Qed.
+
+(* ---- host -> NCP --------------------------------------------------------------------------------
+   The payloads the NCP hands up are a prefix of the host's payloads in the order of their first
+   transmission; the k-th of them is the payload of the k-th send first-transmitted; and sends are
+   first-transmitted in the order in which they were submitted (a sub-sequence: a send refused by a
+   failed link is never transmitted). *)
+Theorem c01_host_to_ncp_prefix : forall K ls, K <= 7 ->
+  let s := link_run K ls in
+  prefix_of (nups s) (map snd (first_tx (htrace s)))
+  /\ map snd (ncp_deliveries s) = nups s
+  /\ subseq (first_tx (htrace s)) (lsubmits ls).
+Proof. exact host_to_ncp_prefix. Qed.
+
+(* ---- a send that completes successfully has been delivered, exactly once ------------------------ *)
+Theorem c01_completed_delivered : forall K ls id, K <= 7 -> NoDup (map fst (lsubmits ls)) ->
+  let s := link_run K ls in
+  In (HDone id OOk) (htrace s) ->
+  count_occ N.eq_dec (map fst (ncp_deliveries s)) id = 1
+  /\ exists p, In (id, p) (lsubmits ls) /\ In (id, p) (ncp_deliveries s).
+Proof. exact completed_delivered. Qed.
+
+(* ---- a send that fails, is cancelled, or has not completed: at most once ------------------------
+   No send at all is delivered twice, whatever was or was not reported about it. *)
+Theorem c01_failed_at_most_once : forall K ls id, K <= 7 -> NoDup (map fst (lsubmits ls)) ->
+  count_occ N.eq_dec (map fst (ncp_deliveries (link_run K ls))) id <= 1.
+Proof. exact at_most_once. Qed.
+
+(* ---- cancelling callers ---------------------------------------------------------------------------
+   Run the same labels without the LCancel ones: both endpoints are in the same state (but for the
+   host's list of cancelled callers), the same frames are on the wire, both sides have handed up the
+   same payloads, the same sends have been transmitted, and the host's outputs differ only in the
+   completion events of the cancelled callers -- every other caller is told the same thing.
+   No hypothesis is needed. *)
+Theorem c01_cancel_noop : forall K ls,
+  let s1 := link_run K ls in
+  let s2 := link_run K (drop_cancels ls) in
+  hs s2 = set_cancelled (hs s1) [] /\ ns s2 = ns s1 /\ h2n s2 = h2n s1 /\ n2h s2 = n2h s1
+  /\ nups s2 = nups s1 /\ hups s2 = hups s1 /\ first_tx (htrace s2) = first_tx (htrace s1)
+  /\ strip (cancelled (hs s1)) (htrace s2) = strip (cancelled (hs s1)) (htrace s1)
+  /\ (forall id o, ~ In (LCancel id) ls ->
+        (In (HDone id o) (htrace s2) <-> In (HDone id o) (htrace s1))).
+Proof. exact cancel_noop. Qed.
+
+(* the callers in [cancelled] are exactly those named by LCancel labels *)
+Theorem c01_cancelled_are_the_cancelled : forall K ls id,
+  In id (cancelled (hs (link_run K ls))) <-> In (LCancel id) ls.
+Proof. exact cancelled_labels. Qed.
+
+(* ==== non-vacuity ================================================================================== *)
+(* one exchange in each direction, with faults: the host's first transmission is lost, the timeout
+   fires, the retransmission arrives twice; the NCP's acknowledgement arrives twice; the NCP's own
+   DATA frame is corrupted on the line (the host NAKs), is retransmitted, and is acknowledged *)
+Definition ex_round (i : nat) : list label :=
+  [LSubmit (N.of_nat i) [N.of_nat i]; LNDrop; LTick; LNDup; LNDeliver; LNDeliver;
+   LNAck; LHDup; LHDeliver; LHDeliver;
+   LNSubmit [N.of_nat (100 + i)]; LNData i false; LHCorrupt; LNDeliver; LNData i true; LHDeliver; LNDeliver].
+(* twelve rounds: the 3-bit numbers wrap in both directions *)
+Definition ex_run : list label := flat_map ex_round (seq 0 12).
+
+Lemma ex_run_ids : map fst (lsubmits ex_run) = map N.of_nat (seq 0 12).
+Proof. vm_compute. reflexivity. Qed.
+Lemma ex_run_nodup : NoDup (map fst (lsubmits ex_run)).
+Proof.
+  rewrite ex_run_ids. apply FinFun.Injective_map_NoDup; [|apply seq_NoDup].
+  intros a b H. apply Nat2N.inj. exact H.
+Qed.
+
+Example c01_ncp_to_host_prefix_ex :
+  hups (link_run 3 ex_run) = map (fun i => [N.of_nat (100 + i)]) (seq 0 12)
+  /\ n_sub (ns (link_run 3 ex_run)) = map (fun i => [N.of_nat (100 + i)]) (seq 0 12)
+  /\ n_base (ns (link_run 3 ex_run)) = 12.
+Proof. vm_compute. repeat split. Qed.
+
+Example c01_host_to_ncp_prefix_ex :
+  nups (link_run 3 ex_run) = map (fun i => [N.of_nat i]) (seq 0 12)
+  /\ first_tx (htrace (link_run 3 ex_run)) = map (fun i => (N.of_nat i, [N.of_nat i])) (seq 0 12)
+  /\ (length (h2n (link_run 3 ex_run)) = 0 /\ length (n2h (link_run 3 ex_run)) = 0).
+Proof. vm_compute. repeat split. Qed.
+
+Example c01_completed_delivered_ex :
+  NoDup (map fst (lsubmits ex_run))
+  /\ oks (htrace (link_run 3 ex_run)) = map N.of_nat (seq 0 12)
+  /\ map fst (ncp_deliveries (link_run 3 ex_run)) = map N.of_nat (seq 0 12).
+Proof. split; [exact ex_run_nodup|]. vm_compute. repeat split. Qed.
+
+(* a send that fails although it was delivered: the five copies all reach the NCP, which hands the
+   payload up once; every acknowledgement is lost, the budget runs out, the caller gets a timeout,
+   the link is failed and the next caller is refused at once, its payload never transmitted *)
+Definition ex_fail : list label :=
+  [LSubmit 0 [7%N]; LNDeliver; LNAck; LHDrop;
+   LTick; LNDeliver; LNAck; LHDrop; LTick; LNDeliver; LTick; LNDeliver; LTick; LNDeliver; LTick;
+   LSubmit 1 [8%N]; LTick; LNDeliver].
+
+Example c01_failed_at_most_once_ex :
+  NoDup (map fst (lsubmits ex_fail))
+  /\ completions (htrace (link_run 1 ex_fail))
+     = [(0%N, OTimeout); (1%N, OFailure ERROR_EXCEEDED_MAXIMUM_ACK_TIMEOUT_COUNT)]
+  /\ length (wire (htrace (link_run 1 ex_fail))) = 5
+  /\ nups (link_run 1 ex_fail) = [[7%N]]
+  /\ ncp_deliveries (link_run 1 ex_fail) = [(0%N, [7%N])]
+  /\ failed (hs (link_run 1 ex_fail)) = true.
+Proof.
+  split.
+  - vm_compute. constructor; [intros [H|[]]; discriminate|]. constructor; [intros []|constructor].
+  - vm_compute. repeat split.
+Qed.
+
+(* the callers of sends 0, 3, 6, 9 of the twelve rounds are cancelled right after submitting *)
+Definition ex_cancel : list label :=
+  flat_map (fun i => match ex_round i with
+                     | l :: r => if i mod 3 =? 0 then l :: LCancel (N.of_nat i) :: r else l :: r
+                     | [] => [] end) (seq 0 12).
+
+Example c01_cancel_noop_ex :
+  drop_cancels ex_cancel = ex_run
+  /\ cancelled (hs (link_run 3 ex_cancel)) = [9%N; 6%N; 3%N; 0%N]
+  /\ completions (htrace (link_run 3 ex_cancel))
+     = map (fun i => (N.of_nat i, if i mod 3 =? 0 then OCancelled else OOk)) (seq 0 12)
+  /\ completions (htrace (link_run 3 ex_run)) = map (fun i => (N.of_nat i, OOk)) (seq 0 12)
+  /\ nups (link_run 3 ex_cancel) = map (fun i => [N.of_nat i]) (seq 0 12).
+Proof. vm_compute. repeat split. Qed.
